@@ -310,7 +310,7 @@ def gen_trace(rnd, ntasks=4, nscopes=10, nops=40):
 TRACE_KW = dict(
     variables=["par", "phase", "label", "lg", "tr", "cur", "stack", "saved", "alive", "nops", "obs"],
     constants=dict(NTasks=4, N=10, MaxOps=100000, Labels='{"plain", "empty", "fmt", "pct"}',
-                   Levels='{"debug", "info", "warning", "error"}', Bug='"none"'),
+                   Levels='{"debug", "info", "warning", "error"}', Bug='"none"', OwnTraces='{"no", "own", "empty"}'),
     config_vars=[], actions=dict(Open=4, Close=2, Log=4, Start=2),
     invariants=["LoggerRule", "TraceInherited", "LineSane"])
 
@@ -318,23 +318,27 @@ TRACE_KW = dict(
 def run(rep, work, tier, seed):
     lv = ["debug", "info", "warning", "error"]
     if tier == "quick":
-        mc = dict(NTasks=2, N=3, MaxOps=4, Labels=["plain", "empty", "fmt", "pct"], Levels=lv, Bug="none")
-        conf = dict(NTasks=2, N=3, MaxOps=3, Labels=["plain", "empty", "fmt"], Levels=lv, Bug="none")
+        mc = dict(NTasks=2, N=3, MaxOps=4, Labels=["plain", "empty", "fmt", "pct"], Levels=lv, OwnTraces=["no", "own"], Bug="none")
+        conf = dict(NTasks=2, N=3, MaxOps=3, Labels=["plain", "empty", "fmt"], Levels=lv, OwnTraces=["no", "own"], Bug="none")
     else:
-        mc = dict(NTasks=2, N=4, MaxOps=5, Labels=["plain", "empty", "fmt", "pct"], Levels=["debug", "warning"], Bug="none")
-        conf = dict(NTasks=2, N=3, MaxOps=4, Labels=["plain", "empty", "fmt", "pct"], Levels=["info", "warning", "error"], Bug="none")
+        mc = dict(NTasks=2, N=4, MaxOps=5, Labels=["plain", "empty", "fmt", "pct"], Levels=["debug", "warning"], OwnTraces=["no", "own"], Bug="none")
+        conf = dict(NTasks=2, N=3, MaxOps=4, Labels=["plain", "empty", "fmt", "pct"], Levels=["info", "warning", "error"], OwnTraces=["no", "own"], Bug="none")
     rep.extra["constants"] = dict(model=mc, conformance=conf)
     leg_m(rep, work, SPEC, f"mc_{tier}", cfg_text(mc, invariants=INVS), expect_actions=["Open", "Close", "Log", "Start"],
           timeout=3000)
     if tier == "thorough":
-        small = dict(NTasks=1, N=3, MaxOps=4, Labels=["plain", "fmt"], Levels=["warning"])
+        small = dict(NTasks=1, N=3, MaxOps=4, Labels=["plain", "fmt"], Levels=["warning"], OwnTraces=["no", "own"])
         for bug, inv in (("fresh_trace", ["TraceInherited"]), ("outermost_logger", ["LoggerRule"]),
                          ("lost_on_format", ["LineSane"])):
             leg_mutant(rep, work, SPEC, f"mutant_{bug}", cfg_text(dict(small, Bug=bug), invariants=INVS), inv)
     leg_r(rep, work, SPEC, f"conf_{tier}", cfg_text(conf, invariants=INVS), make, world=True)
     # a task that outlives the scope it inherited and opens a scope afterwards (4-5 operations), on a narrow alphabet
-    late = dict(NTasks=2, N=3, MaxOps=4 if tier == "quick" else 5, Labels=["plain"], Levels=["warning"], Bug="none")
+    late = dict(NTasks=2, N=3, MaxOps=4 if tier == "quick" else 5, Labels=["plain"], Levels=["warning"], OwnTraces=["no", "own"], Bug="none")
     leg_r(rep, work, SPEC, f"conf_late_{tier}", cfg_text(late, invariants=INVS), make, world=True)
+    # a scope given the EMPTY string as its trace id: read as "none given" or as an id like any other, nothing else (the
+    # specification offers both, so this graph has successor sets and is walked by one process - kept small)
+    empty = dict(NTasks=2, N=3, MaxOps=3, Labels=["plain"], Levels=["warning"], Bug="none", OwnTraces=["no", "own", "empty"])
+    leg_r(rep, work, SPEC, f"conf_empty_{tier}", cfg_text(empty, invariants=INVS), make, world=True)
     # leg T: random programs (4 tasks, 10 scopes, nesting up to 5) validated by a trace module generated from Logs.tla
     rnd = random.Random(seed * 47 + 9)
     traces = gen_traces(rep, lambda: gen_trace(rnd), 100 if tier == "quick" else 1500)
